@@ -33,8 +33,14 @@ impl<C: PixelColor> StyledPixelsIterator<C> {
         primitive: &RoundedRectangle,
         style: &PrimitiveStyle<C>,
     ) -> Self {
-        let stroke_area = style.stroke_area(primitive);
         let fill_area = style.fill_area(primitive);
+
+        // Without a visible stroke only the fill area is drawn, see `draw_styled`.
+        let stroke_area = if style.effective_stroke_color().is_some() {
+            style.stroke_area(primitive)
+        } else {
+            fill_area
+        };
 
         Self {
             styled_scanlines: StyledScanlines::new(&stroke_area, &fill_area),
